@@ -743,21 +743,34 @@ pub fn vendor_grid_case(r: &mut Rng, idx: u64) -> Vec<u8> {
 /// chosen distance from the start or from the end. Scanners that treat head, body and tail of a
 /// long text differently (word-at-a-time fast paths) meet every combination.
 pub const TEXT_KINDS: [u16; 6] = [8, 21, 22, 23, 1, 12];
-pub const TEXT_LENS: [usize; 10] = [9, 16, 31, 63, 64, 65, 80, 128, 255, 400];
+pub const TEXT_LENS: [usize; 15] = [9, 16, 31, 63, 64, 65, 80, 128, 255, 400, 511, 512, 513, 600, 1013];
 pub const TEXT_BAD: [&[u8]; 9] = [&[], &[0xff], &[0xc0, 0x80], &[0xc1, 0xbf], &[0xe0, 0x80, 0x80], &[0xed, 0xa0, 0xbd], &[0xf4, 0x90, 0x80, 0x80], &[0x80], &[0xe2, 0x82]];
-/// positions 0..=8 from the start, 0..=8 from the end, and the middle
-pub const TEXT_POS: usize = 19;
-pub const TEXT_GRID: u64 = (6 * 10 * 9 * TEXT_POS) as u64;
-pub fn text_grid_case(r: &mut Rng, idx: u64) -> Vec<u8> {
+/// positions 0..=8 from the start, 0..=8 from the end, the middle, and p-3..=p+1 for every power
+/// of two p = 16..512 (where a scanner working in blocks or words changes gear)
+pub const TEXT_POS: usize = 19 + 30;
+pub const TEXT_GRID: u64 = (6 * 15 * 9 * TEXT_POS) as u64;
+
+/// (attribute, text length, index into TEXT_BAD, position selector) of grid point `idx`
+pub fn text_grid_dims(idx: u64) -> (u16, usize, usize, usize) {
     let attr = TEXT_KINDS[(idx % 6) as usize];
-    let len = TEXT_LENS[((idx / 6) % 10) as usize];
-    let bad = TEXT_BAD[((idx / 60) % 9) as usize];
-    let pos_sel = ((idx / 540) % TEXT_POS as u64) as usize;
+    let len = TEXT_LENS[((idx / 6) % 15) as usize];
+    let bad = ((idx / 90) % 9) as usize;
+    let pos_sel = ((idx / 810) % TEXT_POS as u64) as usize;
+    (attr, len, bad, pos_sel)
+}
+
+pub fn text_grid_case(r: &mut Rng, idx: u64) -> Vec<u8> {
+    let (attr, len, bad_i, pos_sel) = text_grid_dims(idx);
+    let bad = TEXT_BAD[bad_i];
     let mut text: Vec<u8> = (0..len).map(|_| b'a' + r.below(26) as u8).collect();
     let at = match pos_sel {
         0..=8 => pos_sel,
         9..=17 => len.saturating_sub(bad.len() + (pos_sel - 9)),
-        _ => len / 2,
+        18 => len / 2,
+        _ => {
+            let k = pos_sel - 19;
+            (16usize << (k / 5)) + (k % 5) - 3
+        }
     };
     let at = at.min(len.saturating_sub(bad.len()));
     text[at..at + bad.len()].copy_from_slice(bad);
